@@ -16,3 +16,13 @@ func (verifNopCloser) Close() error { return nil }
 func VerifNew(ctx context.Context, pbc pb.LDLMClient, noAutoRenew bool, maxRetries int) *Client {
 	return &Client{conn: verifNopCloser{}, pbc: pbc, ctx: ctx, noAutoRenew: noAutoRenew, maxRetries: maxRetries}
 }
+
+// VerifRenewNames lists the keys of the renew map.
+func (c *Client) VerifRenewNames() []string {
+	out := []string{}
+	c.renewMap.Range(func(k, _ interface{}) bool {
+		out = append(out, k.(string))
+		return true
+	})
+	return out
+}
